@@ -410,7 +410,7 @@ def run(tier, seed):
         "closure, well-formedness and query agreement; the source must be unchanged; then every edit tail on the copy "
         "or the original must leave the other's fingerprint unchanged; transitions = clones + edits")
     found = {}
-    deadline = time.time() + (200 if tier == "quick" else 3000)
+    deadline = time.time() + (900 if tier == "quick" else 6000)
     cs = cases(tier)
     k = seed % 7
     engine_b.run_cases(ID, cs[k:] + cs[:k], cov, found, deadline, level="clone/" + tier)
